@@ -492,6 +492,21 @@ func ToParsedAuthorizer(az m.Authz) biscuit.ParsedAuthorizer {
 }
 
 func AddAuthz(a biscuit.Authorizer, az m.Authz) {
+	if h := fnv.New32a(); len(az.Policies) >= 2 {
+		h.Write([]byte(az.Key()))
+		if h.Sum32()%5 == 4 {
+			// policies arrive through two entry points: the first ones one by one, the others (with
+			// the rest of the content) as one parsed value; insertion order is the order of arrival
+			k := (len(az.Policies) + 1) / 2
+			for _, p := range az.Policies[:k] {
+				a.AddPolicy(ToPolicy(p))
+			}
+			rest := az
+			rest.Policies = az.Policies[k:]
+			a.AddAuthorizer(ToParsedAuthorizer(rest))
+			return
+		}
+	}
 	switch deliveryOf(az.Key()) {
 	case 0:
 		pa := biscuit.ParsedAuthorizer{Block: toParsedBlock(az.Facts, az.Rules, az.Checks)}
